@@ -95,7 +95,7 @@ func genDirected(t *rapid.T, n int) []txh.Seg {
 		}
 		segs = append(segs, txh.Seg{P: b})
 		segs = append(segs, txh.Seg{P: v, Until: "StoreRepository.GetWithTTL"})
-		segs = append(segs, txh.Seg{P: v, Until: rapid.SampledFrom([]string{"L2.Lock", "L2.Lock", "L2.DualLock", "Registry.Get"}).Draw(t, "stopAt")})
+		segs = append(segs, txh.Seg{P: v, Until: rapid.SampledFrom([]string{"L2.Lock", "L2.Lock", "L2.DualLock", "Registry.Get", "TLog.Add", "TLog.Add"}).Draw(t, "stopAt")})
 		if k := rapid.IntRange(0, 6).Draw(t, "extra"); k > 0 {
 			segs = append(segs, txh.Seg{P: v, N: k})
 		}
